@@ -122,6 +122,7 @@ def step (st : St) (ts : List String) : St × String :=
         (st, rejectSet cls op got want)
       | none => (st, "reject bad-output " ++ l)
     | _, _, _, _ => (st, "reject bad-output " ++ " ".intercalate out)
+  | ["mutate"] => (st, if out == ["ok"] then "ok" else "reject bad-output " ++ " ".intercalate out)
   | ["stats"] =>
     match out with
     | sz :: _ :: _ :: [cp] =>
